@@ -322,7 +322,20 @@ func genC15(p *pkgInfo, l *leanFile) {
 		for _, st := range fd.Body.List {
 			if is, ok := st.(*ast.IfStmt); ok && is.Else == nil && len(is.Body.List) == 1 {
 				if r, ok := is.Body.List[0].(*ast.ReturnStmt); ok && len(r.Results) == 1 && c15NoSpace(r.Results[0]) == "false" {
-					guards = append(guards, p.c15CondKind(fd, is.Cond))
+					// `if a || b { return false }` declines under a and under b: one guard per disjunct
+					var disj func(e ast.Expr) []ast.Expr
+					disj = func(e ast.Expr) []ast.Expr {
+						if pe, ok := e.(*ast.ParenExpr); ok {
+							return disj(pe.X)
+						}
+						if b, ok := e.(*ast.BinaryExpr); ok && b.Op == token.LOR {
+							return append(disj(b.X), disj(b.Y)...)
+						}
+						return []ast.Expr{e}
+					}
+					for _, d := range disj(is.Cond) {
+						guards = append(guards, p.c15CondKind(fd, d))
+					}
 				}
 			}
 		}
